@@ -203,10 +203,25 @@ class Interp:
         if b[3] is None:
             return None
         t = H.strip(b[3])
-        if H.is_node(t) and t[0] in ("if", "ret"):
-            if self.stmt(t, env, subs):
-                return "returned"
-            return None
+        if H.is_node(t) and t[0] == "ret":
+            self.stmt(t, env, subs)
+            return "returned"
+        if H.is_node(t) and t[0] == "if":
+            # an `if` in tail position: each branch yields the value of the block (or returns)
+            ct, cf_ = self.cond(t[2], env)
+            if t[4] is None:
+                if self.stmt(t, env, subs):
+                    return "returned"
+                return None
+            for br, sub in ((t[3], ct), (t[4], cf_)):
+                v = self.run_block(br, env, subs + ([sub] if sub else []))
+                if v in (None,):
+                    raise NotAlgebraic("branch without a value")
+                if v != "returned":
+                    if v[0] != "rat":
+                        raise NotAlgebraic("branch value is not a rational")
+                    self.returns.append((v[1], v[2], list(subs + ([sub] if sub else [])), t[1]))
+            return "returned"
         return self.ev(b[3], env)
 
     def stmt(self, n, env, subs):
